@@ -71,12 +71,19 @@ uint64_t carquet_xxhash64(const void *data, size_t length, uint64_t seed);
 // one-byte allocation whose first byte is already out of bounds for ASan
 // purposes when the declared size is 0.
 struct Exact {
+  uint8_t *base;
   uint8_t *p;
   size_t n;
-  explicit Exact(size_t n_) : n(n_) { p = (uint8_t *)malloc(n_ ? n_ : 1); if (n_) memset(p, 0xA5, n_); }
-  Exact(const uint8_t *src, size_t n_) : n(n_) { p = (uint8_t *)malloc(n_ ? n_ : 1); if (n_) memcpy(p, src, n_); }
+  void alloc(size_t n_) {
+    n = n_;
+    // size 0: a valid pointer one past an 8-byte block, so that touching even one byte trips ASan
+    base = (uint8_t *)malloc(n_ ? n_ : 8);
+    p = n_ ? base : base + 8;
+  }
+  explicit Exact(size_t n_) { alloc(n_); if (n_) memset(p, 0xA5, n_); }
+  Exact(const uint8_t *src, size_t n_) { alloc(n_); if (n_) memcpy(p, src, n_); }
   explicit Exact(const std::vector<uint8_t> &v) : Exact(v.data(), v.size()) {}
-  ~Exact() { free(p); }
+  ~Exact() { free(base); }
   Exact(const Exact &) = delete;
   Exact &operator=(const Exact &) = delete;
   template <class T> T *as() { return (T *)p; }
